@@ -179,7 +179,8 @@ def from111 : V3 α := ⟨-1, -1, -1⟩
 /-- translation column of `to_111` (spm99analyze.py:297-298) -/
 def to111 : V3 α := ⟨1, 1, 1⟩
 
-/-- what `Spm99AnalyzeImage.to_file_map` puts in the `.mat` file: `(M, mat)` (318-333) -/
+/-- what `Spm99AnalyzeImage.to_file_map` puts in the `.mat` file: `(M, mat)` (318-333).  `xFlip` is
+    `default_x_flip` of the image's header at the time of saving. -/
 def spmWriteMat (xFlip : Bool) (a : Aff α) : Aff α × Aff α :=
   let M := if xFlip then a.flipX else a
   (M.mulShift from111, a.mulShift from111)
@@ -189,12 +190,18 @@ inductive MatMode where
   | both     -- 'mat' and 'M' (what nibabel writes): 'mat' wins
   | mOnly    -- only 'M' (files written by SPM itself): flip applied by the reader
   | none     -- no / empty `.mat` file: header affine is kept
+  | matOnly  -- only 'mat'
+  | mat3d    -- 'mat' is a 4x4xN stack (and 'M' present): `mat[:, :, 0]` is used (284-287); the stack's
+             -- first slice is the matrix the writer stored
   deriving DecidableEq, Repr, Inhabited
 
-/-- `Spm99AnalyzeImage.from_file_map` (282-300): the affine taken from the `.mat` contents -/
+/-- `Spm99AnalyzeImage.from_file_map` (282-300): the affine taken from the `.mat` contents.  `xFlip` is
+    `default_x_flip` of the header the LOADING class made. -/
 def spmReadMat (xFlip : Bool) (mode : MatMode) (stored : Aff α × Aff α) (hdrAffine : Aff α) : Aff α :=
   match mode with
   | .both => stored.2.mulShift to111
+  | .matOnly => stored.2.mulShift to111
+  | .mat3d => stored.2.mulShift to111
   | .mOnly => (if xFlip then stored.1.flipX else stored.1).mulShift to111
   | .none => hdrAffine
 
@@ -516,8 +523,8 @@ def intV3 (v : V3 Int) : V3 Rat := ⟨(v.x : Rat), (v.y : Rat), (v.z : Rat)⟩
 
 /-- `Spm99AnalyzeHeader.get_origin_affine` (spm99analyze.py:133-151).  `dims = dim[1:4]`
     (entries past `ndim` are 1). -/
-def AHdr.originAffine (h : AHdr) : Aff Rat :=
-  let zooms : V3 Rat := ⟨h.pixdim.x * (-1), h.pixdim.y, h.pixdim.z⟩
+def AHdr.originAffine (xFlip : Bool) (h : AHdr) : Aff Rat :=
+  let zooms : V3 Rat := if xFlip then ⟨h.pixdim.x * (-1), h.pixdim.y, h.pixdim.z⟩ else h.pixdim
   let dimsN := natsToV3 h.shape 1
   let o := h.origin
   let dI : V3 Int := ⟨(h.shape[0]?.getD 1 : Nat), (h.shape[1]?.getD 1 : Nat), (h.shape[2]?.getD 1 : Nat)⟩
@@ -529,10 +536,24 @@ def AHdr.originAffine (h : AHdr) : Aff Rat :=
     else ⟨(dimsN.x - 1) / 2, (dimsN.y - 1) / 2, (dimsN.z - 1) / 2⟩
   ⟨M33.diag zooms, (origin.neg).hmul zooms⟩
 
-def AHdr.bestAffine (k : AKind) (h : AHdr) : Aff Rat :=
+/-- `header.default_x_flip` at the three moments it is consulted: when the image is constructed
+    (`SpatialImage.__init__` → `update_header`), when it is saved (`to_file_map` → `update_header`, and the
+    `.mat` writer), and on the header made by the loading class (`from_file_map`).  It is a class attribute
+    (`analyze.py:190`, True) that a header subclass or an instance may override. -/
+structure Flips where
+  init : Bool
+  save : Bool
+  load : Bool
+  deriving DecidableEq, Repr, Inhabited
+
+def Flips.dflt : Flips := ⟨true, true, true⟩
+
+/-- `get_best_affine` of an Analyze (`get_base_affine`, analyze.py:636-660) / SPM (`get_origin_affine`) header
+    whose `default_x_flip` is `xFlip` -/
+def AHdr.bestAffine (k : AKind) (xFlip : Bool) (h : AHdr) : Aff Rat :=
   match k with
-  | .analyze => shapeZoomAffine h.shape h.pixdim true
-  | .spm => h.originAffine
+  | .analyze => shapeZoomAffine h.shape h.pixdim xFlip
+  | .spm => h.originAffine xFlip
 
 /-- `SpatialImage._affine2header` (spatialimages.py:560-569): the first `min(ndim, 3)` zooms become
     the column norms of the affine -/
@@ -542,8 +563,8 @@ def AHdr.affine2header (E : Ext) (h : AHdr) (a : Aff Rat) : AHdr :=
   { h with pixdim := ⟨if 0 < nd then vox.x else h.pixdim.x, if 1 < nd then vox.y else h.pixdim.y,
                       if 2 < nd then vox.z else h.pixdim.z⟩ }
 
-def AHdr.updateHeader (E : Ext) (k : AKind) (h : AHdr) (a : Aff Rat) : AHdr :=
-  if E.allclose a (h.bestAffine k) then h else h.affine2header E a
+def AHdr.updateHeader (E : Ext) (k : AKind) (xFlip : Bool) (h : AHdr) (a : Aff Rat) : AHdr :=
+  if E.allclose a (h.bestAffine k xFlip) then h else h.affine2header E a
 
 def defaultAHdr (shape : List Nat) : AHdr := ⟨shape, ⟨1, 1, 1⟩, ⟨0, 0, 0⟩⟩
 
@@ -553,19 +574,44 @@ structure AOut where
   pixdim : V3 Rat
   deriving DecidableEq, Repr
 
-/-- `load(save(Klass(data, affine, header)))` for AnalyzeImage / Spm99AnalyzeImage / Spm2AnalyzeImage.
+/-- `load(save(Klass(data, affine, header)))` for AnalyzeImage / Spm99AnalyzeImage / Spm2AnalyzeImage, from the
+    header `h0` the constructor starts with (its shape already the data shape).
     `mode` says what the `.mat` file holds at load time (ignored by plain Analyze). -/
-def analyzeRoundtrip (E : Ext) (k : AKind) (shape : List Nat) (a : Aff Rat) (hdr : Option AHdr)
-    (mode : MatMode) : AOut :=
-  let h0 := match hdr with
-    | none => defaultAHdr shape
-    | some h => { h with shape := shape }
-  let h1 := h0.updateHeader E k a
-  let h2 := h1.updateHeader E k a
-  let hdrAff := h2.bestAffine k
+def analyzeRoundtripFrom (E : Ext) (k : AKind) (fl : Flips) (a : Aff Rat) (h0 : AHdr) (mode : MatMode) : AOut :=
+  let h1 := h0.updateHeader E k fl.init a
+  let h2 := h1.updateHeader E k fl.save a
+  let hdrAff := h2.bestAffine k fl.load
   match k with
   | .analyze => ⟨hdrAff, h2.pixdim⟩
-  | .spm => ⟨spmReadMat true mode (spmWriteMat true a) hdrAff, h2.pixdim⟩
+  | .spm => ⟨spmReadMat fl.load mode (spmWriteMat fl.save a) hdrAff, h2.pixdim⟩
+
+def analyzeRoundtrip (E : Ext) (k : AKind) (fl : Flips) (shape : List Nat) (a : Aff Rat) (hdr : Option AHdr)
+    (mode : MatMode) : AOut :=
+  analyzeRoundtripFrom E k fl a (match hdr with
+    | none => defaultAHdr shape
+    | some h => { h with shape := shape }) mode
+
+/-! ### a header of ANOTHER class handed to the constructor
+
+  `Klass(data, affine, header)` → `header_class.from_header(header)` (analyze.py:351-408): a header whose type is
+  not exactly the image's header class is converted: every field of the source that the target also has is
+  assigned by name (`obj[key] = mapping[key]`: the value is cast to the target field's type), the others are
+  dropped; then dtype, shape and `set_zooms(header.get_zooms())`.  A header without `as_analyze_map` (MGH) only
+  gives dtype, shape and zooms; `MGHHeader.from_header` (mghformat.py:144-155) ignores a foreign header. -/
+
+/-- NIfTI-1 / pair / NIfTI-2 header into another NIfTI flavour: all the affine fields exist on both sides;
+    `rnd` is the cast into the target's field type (float32 for NIfTI-1, none for NIfTI-2) -/
+def NHdr.convertN (rnd : Rat → Rat) (h : NHdr) : NHdr :=
+  { h with srow := h.srow.map rnd, qfac := rnd h.qfac, pixdim := h.pixdim.map rnd, quat := h.quat.map rnd,
+           qoff := h.qoff.map rnd }
+
+/-- Analyze / SPM / MGH header into a NIfTI flavour: only `pixdim` arrives (no sform/qform fields in the source) -/
+def NHdr.ofZooms (rnd : Rat → Rat) (shape : List Nat) (z : V3 Rat) : NHdr :=
+  { defaultNHdr shape with pixdim := z.map rnd }
+
+/-- any header into Analyze / SPM: `pixdim`, and `origin` only from SPM to SPM -/
+def AHdr.ofZooms (rnd : Rat → Rat) (shape : List Nat) (z : V3 Rat) (origin : V3 Int) : AHdr :=
+  ⟨shape, z.map rnd, origin⟩
 
 /-! ### MGH -/
 
